@@ -18,6 +18,9 @@ func init() {
 		{Name: "rawdata-keeps-slice", Rule: "R14.1", Where: "(*rawdata).UnmarshalBinary", Edits: []Edit{{"wiretypes.go", "\t*v = make([]byte, len(data))\n\tcopy(*v, data)\n\treturn nil", "\t*v = data\n\treturn nil"}}},
 		{Name: "payload-aliases-via-packet", Rule: "R14.1", Where: "(*Publish).UnmarshalBinary", Edits: []Edit{{"publish.go", "\tif len(data) > buf.i {\n\t\tget(&p.payload)\n\t}", "\tif len(data) > buf.i {\n\t\tp.payload = rawdata(data[buf.i:])\n\t}"}}},
 		{Name: "decoder-writes-input", Rule: "R14.1", Where: "(*wuint16).UnmarshalBinary", Edits: []Edit{{"wiretypes.go", "\t*v = wuint16(binary.BigEndian.Uint16(data))\n\treturn nil", "\t*v = wuint16(binary.BigEndian.Uint16(data))\n\tdata[0] = 0\n\treturn nil"}}},
+		{Name: "ping-packets-as-package-singletons", Rule: "R14.6", Where: "ReadPacket", Edits: []Edit{
+			{"packet.go", "\tcase PINGREQ:\n\t\tp = &PingReq{fixed: f.fixed}", "\tcase PINGREQ:\n\t\tsharedPingReq.fixed = f.fixed\n\t\tp = sharedPingReq"},
+			{"packet.go", "type fixedHeader struct {", "var sharedPingReq = &PingReq{}\n\ntype fixedHeader struct {"}}},
 		{Name: "shared-frame-buffer", Rule: "R14.4", Where: "ReadRemaining", Edits: []Edit{
 			{"packet.go", "\tdata := make([]byte, int(f.remainingLen))\n", "\tif cap(frameBuf) < int(f.remainingLen) {\n\t\tframeBuf = make([]byte, int(f.remainingLen))\n\t}\n\tdata := frameBuf[:int(f.remainingLen)]\n"},
 			{"packet.go", "type fixedHeader struct {", "var frameBuf []byte\n\ntype fixedHeader struct {"}}},
@@ -42,6 +45,7 @@ func checkC14(p *Prog, c *Check) {
 	c.Rule("R14.2", "package variables are assigned only in init, their storage and the fields that may share it are never written in place (same rule as C13 R13.2)")
 	c.Rule("R14.3", "no exported function or method returns a slice, map or pointer whose provenance is a package variable's storage, nor an uncopied load of a field that may share such storage")
 	c.Rule("R14.5", "no decoder overwrites storage its receiver already held when the call began (which the caller may share with other packets through setters and accessors): every element store, copy destination and re-sliced append base on the decode path is a fresh allocation of that call")
+	c.Rule("R14.6", "ReadPacket writes only memory allocated during the call and returns a packet allocated during the call: packets from different calls share nothing (same rule as C13 R13.3)")
 	c.Rule("R14.4", "on ReadPacket's call tree the buffer handed to UnmarshalBinary is allocated freshly in that call")
 	c.Explanation = "Retention edges (value of provenance X stored into memory of provenance Y) are computed by the provenance analysis of C13, field-sensitively for fresh objects such as the sequential reader; string(b), copy and make produce fresh memory. For every UnmarshalBinary the summary must contain no edge from the data parameter (or anything reachable from it) into non-fresh memory, no result carrying it and no write through it. Shared state between packets can only arise through package-level storage, which R14.2/R14.3 exclude, or through the frame buffer, which R14.4 shows to be per call."
 	c.Trusted = []string{"go/types + go/ssa (x/tools v0.29.0) faithful IR", "stdlib effect table (DESIGN Appendix B)", "copy/append/string-conversion semantics of Go"}
@@ -283,6 +287,9 @@ func checkC14(p *Prog, c *Check) {
 	delete(p.cache, "specctx")
 	delete(p.cache, "spectag")
 	c.Measured["in_place_writes_in_decoders"] = nwr
+
+	// R14.6
+	ruleReadPacketFresh(p, c, "R14.6")
 
 	// R14.4
 	rp, msg := p.readPacketAnchor()
